@@ -2,7 +2,8 @@ SPEC = dict(
     claimed=True,
     title='Only root-controlled executables are ever run',
     props_file='Props/C18.v', props_mod='Props.C18',
-    proof_files=['Proofs/ExecPerm.v', 'Drv/Perm.v'],
+    props_extra=[('Props/C18Link.v', 'Props.C18Link')],
+    proof_files=['Proofs/ExecPerm.v', 'Proofs/ExecLinks.v', 'Drv/Perm.v'],
     tie_vo=['Proofs/LeafTie2_CheckFilePermissions.vo'],
     drivers=[dict(name='perm', drv_mod='Drv.Perm', drv_file='Drv/Perm.v', shard=700,
                   args={'quick': ['flips=400'], 'thorough': ['flips=6000']},
@@ -17,15 +18,22 @@ SPEC = dict(
          'cmd + fan error, cmd + early error, none + fan error) on 23 representative modes; setuid/setgid/sticky modes; '
          'missing file, dangling link, link loops, link chains of 1..299 (kernel limit 40, EvalSymlinks limit 255); seeded '
          'random sequences in which owner, group, mode, link target or the file itself change between 2-5 consecutive calls. '
-         'A started script appends its own id to a marker file. Non-trivial = at least one call on a path that leads to an '
+         'Calls DURING which the tree changes: a helper waits for the first start on record, then chowns / chmods / removes the '
+         'file or retargets the link while the command is still running, and the command then fails or succeeds (6 apis x '
+         'direct/symlink x 7 changes x failing/succeeding; also inside the random sequences), followed by an ordinary call. '
+         'api 5 = the real initializeSensors on a configuration whose only cmd sensor is used by no curve (it IS executed at '
+         'start-up), and the configuration variant with such a leftover cmd sensor through Validate. '
+         'EVERY start of a script appends its id and stat -L of its own path to a marker file, so the observation is the list '
+         'of starts inside one call with the attributes at each start. Non-trivial = at least one call on a path that leads to an '
          'existing file; distinct = distinct (operations, observations) terms.',
     assumptions=[
         'stat(2)/readlink(2) report what the harness set with chown/chmod/symlink (file system = finite map path -> node)',
         'filepath.EvalSymlinks follows at most 255 links, the kernel at most 40 (model constants go_maxlinks, kernel_maxlinks; '
         'both boundaries are exercised on the real code)',
         'root may start a file iff one of the execute bits 0o111 is set (has_exec); files are well-formed scripts',
-        'C18_every_call treats one call as atomic: a change of the tree BETWEEN the check and the start inside one call '
-        '(inherent check-then-exec window; exec.Command is given the original path) is outside the property as stated',
+        'a change of the tree BETWEEN the check and the single start inside one call (inherent check-then-exec window; '
+        'exec.Command is given the original path) is outside the property as stated; a change WHILE the started command runs '
+        'is covered (OpExecDuring: one check and at most one start per call)',
     ],
     trusted_base=[
         'axiom-free (Print Assumptions: Closed under the global context for every C18 theorem)',
@@ -39,7 +47,9 @@ SPEC = dict(
                'an independent octal-digit reading on the whole 2x2x512 grid (vm_compute, bound in the statement); C18_every_call is '
                'an induction over arbitrary operation sequences: the event of the k-th call is the check evaluated in the state at '
                'step k, a command starts only for a file that is root-controlled after symlink resolution, otherwise the call is '
-               'refused and nothing starts, and it never panics; C18_config_file(_rejected) give the same for Validate. The '
+               'refused and nothing starts, and it never panics; C18_every_call_during extends it to a tree that changes while the '
+               'started command runs (no second, unchecked start); C18_config_file(_rejected) give the same for Validate; '
+               'C18_no_false_alarm: a case the model reproduces is never reported as failing. The '
                'differential run executes the real code on the full grid with a side-effect marker and on sequences that flip '
                'attributes between calls, and judges the implementation by the verified observer on the attributes the harness '
                'itself read from the file system.',
